@@ -1,13 +1,14 @@
 #!/bin/bash
-# usage: confirm_seeded.sh <id> <patch> <demo.rs> [<needs: free text>]
+# usage: [CONFIRM_SLOT=n] confirm_seeded.sh <id> <patch> <demo.rs> [<needs: free text>]   (slots run in parallel)
 # Confirms a seeded change in a scratch worktree: builds, full suite passes with the change, demo fails with the
 # change and passes without. Writes /verif/seeded/<id>/{patch.diff,demo.rs,meta.json,confirm.log}.
 set -u
 ID=$1; PATCH=$2; DEMO=$3
-WT=/tmp/wt/confirm
+SLOT=${CONFIRM_SLOT:-}
+WT=/tmp/wt/confirm$SLOT
 OUT=/verif/seeded/$ID
 mkdir -p "$OUT"
-export CARGO_NET_OFFLINE=true CARGO_TARGET_DIR=/tmp/wt/confirm-target
+export CARGO_NET_OFFLINE=true CARGO_TARGET_DIR=/tmp/wt/confirm-target${CONFIRM_SLOT:-}
 if [ ! -d $WT ]; then git -C /repo worktree add --detach $WT HEAD -q; fi
 cd $WT && git checkout -q --detach $(git -C /repo rev-parse HEAD) && git checkout -- . && git clean -fdq tests
 LOG=$OUT/confirm.log; : > $LOG
